@@ -40,6 +40,17 @@ def kind_sort(kind):
             return s
         if kind[0] == 'seq':
             return z3.SeqSort(kind_sort(kind[1]))
+        if kind[0] == 'union':
+            name = 'Un_' + str(abs(hash(kind)) % 10**8)
+            dt = z3.Datatype(name)
+            for i, k in enumerate(kind[1:]):
+                if k == 'none':
+                    dt.declare(f'alt{i}')
+                else:
+                    dt.declare(f'alt{i}', (f'v{i}', kind_sort(k)))
+            s = dt.create()
+            _dt_cache[kind] = s
+            return s
     raise ValueError(f'no z3 sort for kind {kind!r}')
 
 
@@ -322,8 +333,14 @@ def flat_kind(s):
         ks = [flat_kind(a) for a in s.args]
         if all(k is not None for k in ks):
             return ('tuple',) + tuple(ks)
+    if s.tag == 'None':
+        return 'none'
     if s.tag == 'Union' and len(s.args) == 2 and s.args[0].tag == 'None':
         k = flat_kind(s.args[1])
         if k is not None:
             return ('opt', k)
+    if s.tag == 'Union':
+        ks = [flat_kind(a) for a in s.args]
+        if all(k is not None for k in ks):
+            return ('union',) + tuple(ks)
     return None
